@@ -101,6 +101,22 @@ pub fn pc_gens<G: CurveTag>() -> PedersenGens<G> {
     })
 }
 
+/// the Pedersen bases a program's prover and verifier share
+pub fn prog_pc<G: CurveTag>(prog: &Program) -> PedersenGens<G> {
+    use ark_ec::CurveGroup;
+    let d = pc_gens::<G>();
+    let rp = |seed: u64| -> G {
+        let s: Fr<G> = crate::scalars::ScalarSpec::Rand(seed ^ 0x5eed_ba5e).to_f();
+        G::generator().mul_bigint(ark_ff::PrimeField::into_bigint(s)).into_affine()
+    };
+    match prog.pc % 4 {
+        0 => d,
+        1 => PedersenGens { B: rp(2 * prog.seed + 11), B_blinding: rp(2 * prog.seed + 12) },
+        2 => PedersenGens { B: d.B_blinding, B_blinding: d.B },
+        _ => PedersenGens { B: (d.B.into_group() + d.B.into_group()).into_affine(), B_blinding: d.B_blinding },
+    }
+}
+
 // ---------------------------------------------------------------------------------------
 // external RNG with a byte counter
 
@@ -451,7 +467,7 @@ pub fn run_prover<G: CurveTag>(prog: &Program, opts: &ProveOpts<G>) -> ProveOut<
     let shape = prog.shape();
     let cap = opts.cap.unwrap_or_else(|| prog.cap_p.resolve(shape.padded()));
     let gens = bp_gens::<G>(cap, prog.party_cap as usize);
-    let pc = opts.pc_gens.unwrap_or_else(pc_gens::<G>);
+    let pc = opts.pc_gens.unwrap_or_else(|| prog_pc::<G>(prog));
     let ctx = Ctx::<G>::new(true, vec![]);
     let ctx = if opts.direct_vars {
         let mut c = Rc::try_unwrap(ctx).ok().expect("fresh");
@@ -586,7 +602,7 @@ pub fn run_verifier<G: CurveTag>(
     let shape = prog.shape();
     let cap = opts.cap.unwrap_or_else(|| prog.cap_v.resolve(shape.padded()));
     let gens = bp_gens::<G>(cap, prog.party_cap as usize);
-    let pc = opts.pc_gens.unwrap_or_else(pc_gens::<G>);
+    let pc = opts.pc_gens.unwrap_or_else(|| prog_pc::<G>(prog));
     let ctx = Ctx::<G>::new(false, commitments.to_vec());
     let mut t = make_transcript(prog);
     let main_id = t.instr_id();
@@ -646,7 +662,8 @@ pub fn run_batch<G: CurveTag>(
     seed: u64,
 ) -> (Option<Result<(), R1CSError>>, Option<String>) {
     let gens = bp_gens::<G>(cap, 1);
-    let pc = pc_gens::<G>();
+    // one pair of bases per batch: that of its first member (callers keep members consistent)
+    let pc = members.first().map(|m| prog_pc::<G>(m.prog)).unwrap_or_else(pc_gens::<G>);
     let mut transcripts: Vec<Transcript> = members.iter().map(|m| make_transcript(m.prog)).collect();
     let mut rng = CountingRng::new(seed, 2);
     let res = guarded(|| {
@@ -683,7 +700,7 @@ fn _unused<G: AffineRepr>() -> Fr<G> {
 
 /// Drive only the first phase on both roles (no proof needed) and hand back the call records.
 pub fn phase1_calls<G: CurveTag>(prog: &Program) -> Result<(Vec<CallRec>, Vec<CallRec>), String> {
-    let pc = pc_gens::<G>();
+    let pc = prog_pc::<G>(prog);
     guarded(|| {
         let ctxp = Ctx::<G>::new(true, vec![]);
         let mut tp = make_transcript(prog);
